@@ -1,9 +1,10 @@
-(* ArrayFacts.v -- theorems about the Array model, for every element type E and every scalar
-   operation table: NumPy broadcasting as an index map (by induction on rank), the fill loop,
-   the element-wise lifting of binary ufuncs after ANY history, unary operations / views on
-   objects whose remembered broadcast shape is None, what a stale remembered shape does,
-   np.arctan2's three behaviours, history independence of all binary ufuncs, and
-   well-formedness of every reachable heap. *)
+(* ArrayFacts.v -- theorems about the Array model (the REPAIRED uncertain_array.py), for every
+   element type E and every scalar operation table: NumPy broadcasting as an index map (by
+   induction on rank), the fill loop, well-formedness of every reachable heap, the element-wise
+   lifting of every binary ufunc (np.arctan2 included, either operand order, with broadcasting),
+   unary operations / views / copy / result / same-shape sensitivity, the invariant that after ANY
+   history no object holds a remembered broadcast shape, and from it full history independence:
+   content-equal reachable heaps are equal. *)
 From Coq Require Import ZArith List Bool Arith Lia.
 From GTCV Require Import Num Array.
 Import ListNotations.
@@ -350,8 +351,7 @@ Proof.
   destruct (shape_eqb s0 s1).
   - apply finish_wf; [apply wf_upd; exact H|]. intros cells Hc. eapply fill_length. exact Hc.
   - destruct (bshape s0 s1) as [r|]; [|apply wf_upd; exact H].
-    destruct bk; try (apply finish_wf; [apply wf_upd; exact H|]; intros cells Hc; eapply fill_length; exact Hc).
-    simpl. apply wf_upd. exact H.
+    apply finish_wf; [apply wf_upd; exact H|]. intros cells Hc. eapply fill_length. exact Hc.
 Qed.
 
 Lemma step_un_wf : forall h k f i lbl, wf_heap h -> wf_heap (fst (step_un h k f i lbl)).
@@ -503,10 +503,10 @@ Lemma snd_finish : forall h k s r lbl,
   snd (finish E h k s r lbl) = match r with Ok cells => XArr k s cells | Err e => XExn e end.
 Proof. intros. unfold finish. destruct r; reflexivity. Qed.
 
-(* The element-wise lifting of every binary ufunc other than arctan2, for operands of any shapes
-   that broadcast, whichever operand dispatches, whatever _broadcasted_shape any object holds. *)
+(* The element-wise lifting of every binary ufunc (np.arctan2 included), for operands of any shapes
+   that broadcast, whichever operand dispatches. *)
 Theorem bin_lift : forall h bk f x y self s0 c0 s1 c1 r,
-  bk <> BAtan2 -> wf_heap h ->
+  wf_heap h ->
   dispatcher h x y = Some self ->
   input E h x y = Some (s0, c0) -> input E h y x = Some (s1, c1) ->
   bshape s0 s1 = Some r ->
@@ -520,7 +520,7 @@ Theorem bin_lift : forall h bk f x y self s0 c0 s1 c1 r,
   | XLbl _ => False
   end.
 Proof.
-  intros h bk f x y self s0 c0 s1 c1 r Hbk W D I0 I1 B.
+  intros h bk f x y self s0 c0 s1 c1 r W D I0 I1 B.
   pose proof (input_wf _ _ _ _ _ W I0) as L0. pose proof (input_wf _ _ _ _ _ W I1) as L1.
   assert (exists me, nth_error h self = Some me) as [me N].
   { unfold dispatcher in D. destruct (is_ku E h x) as [i|] eqn:Kx.
@@ -537,18 +537,17 @@ Proof.
     assert (G1 : forall idx, valid s0 idx -> nth (flat s0 idx) c1 none = nth (src s0 s0 idx) c1 none)
       by (intros idx V; rewrite src_same by exact V; reflexivity).
     specialize (P G0 G1).
-    destruct bk; try congruence;
-      (destruct (Array.fill E none (size s0) (combine c0 c1) (fun p => bin f (fst p) (snd p))) as [cells|e];
-       [destruct P as [Lc P]; repeat split; auto|exact P]).
+    destruct (Array.fill E none (size s0) (combine c0 c1) (fun p => bin f (fst p) (snd p))) as [cells|e];
+      [destruct P as [Lc P]; repeat split; auto|exact P].
   - rewrite B. destruct (bshape_spec _ _ _ B) as [C0 C1].
     assert (P := fill_pairs_lift f (bcast_list s0 r c0) (bcast_list s1 r c1) r
                    (fun idx => nth (src s0 r idx) c0 none) (fun idx => nth (src s1 r idx) c1 none)
                    (bcast_list_length _ _ _ C0 L0) (bcast_list_length _ _ _ C1 L1)
                    (fun idx V => bcast_list_nth s0 r c0 idx none C0 L0 V)
                    (fun idx V => bcast_list_nth s1 r c1 idx none C1 L1 V)).
-    destruct bk; try congruence; rewrite snd_finish;
-      (destruct (Array.fill E none (size r) (combine (bcast_list s0 r c0) (bcast_list s1 r c1)) (fun p => bin f (fst p) (snd p))) as [cells|e];
-       [destruct P as [Lc P]; repeat split; auto|exact P]).
+    rewrite snd_finish.
+    destruct (Array.fill E none (size r) (combine (bcast_list s0 r c0) (bcast_list s1 r c1)) (fun p => bin f (fst p) (snd p))) as [cells|e];
+      [destruct P as [Lc P]; repeat split; auto|exact P].
 Qed.
 
 (* shapes that NumPy cannot broadcast: ValueError, and the dispatcher's remembered shape is reset *)
@@ -569,65 +568,6 @@ Proof.
   - rewrite B. reflexivity.
 Qed.
 
-(* what the dispatcher remembers after a binary ufunc *)
-Theorem bin_remembers : forall h bk f x y self s0 c0 s1 c1 r,
-  dispatcher h x y = Some self ->
-  input E h x y = Some (s0, c0) -> input E h y x = Some (s1, c1) ->
-  bshape s0 s1 = Some r ->
-  forall a, nth_error h self = Some a ->
-  nth_error (fst (step_bin h bk f x y)) self = Some (set_bs E a (if shape_eqb s0 s1 then BNone else BSome r)).
-Proof.
-  intros h bk f x y self s0 c0 s1 c1 r D I0 I1 B a N.
-  assert (U : forall b, nth_error (upd E h self (fun a => set_bs E a b)) self = Some (set_bs E a b)).
-  { intro b. clear - N. revert self N. induction h as [|c h IH]; intros [|self] N; simpl in *; try discriminate.
-    - inversion N; subst. reflexivity.
-    - apply IH. exact N. }
-  assert (U' : forall b k s rr l, nth_error (fst (finish E (upd E h self (fun a => set_bs E a b)) k s rr l)) self = Some (set_bs E a b)).
-  { intros. unfold finish. destruct rr; simpl; [|apply U]. rewrite nth_error_app1; [apply U|].
-    apply nth_error_Some. rewrite U. discriminate. }
-  unfold Array.step_bin. fold (dispatcher h x y). rewrite D, I0, I1, N.
-  destruct (shape_eqb s0 s1); [apply U'|]. rewrite B. destruct bk; try apply U'. simpl. apply U.
-Qed.
-
-(* ------------------------------------------------------------------ np.arctan2 *)
-(* (a) shapes that need broadcasting: AttributeError, and the remembered shape stays set *)
-Theorem arctan2_broadcast_raises : forall h f x y self s0 c0 s1 c1 r,
-  dispatcher h x y = Some self ->
-  input E h x y = Some (s0, c0) -> input E h y x = Some (s1, c1) ->
-  s0 <> s1 -> bshape s0 s1 = Some r ->
-  step_bin h BAtan2 f x y = (upd E h self (fun a => set_bs E a (BSome r)), XExn AttributeError).
-Proof.
-  intros h f x y self s0 c0 s1 c1 r D I0 I1 Ne B.
-  assert (exists me, nth_error h self = Some me) as [me N].
-  { unfold dispatcher in D. destruct (is_ku E h x) as [i|] eqn:Kx.
-    - inversion D; subst. destruct (is_ku_spec _ _ _ Kx) as (_ & a & Na & _). eauto.
-    - destruct (is_ku_spec _ _ _ D) as (_ & a & Na & _). eauto. }
-  unfold Array.step_bin. fold (dispatcher h x y). rewrite D, I0, I1, N.
-  destruct (shape_eqb s0 s1) eqn:Q; [apply shape_eqb_eq in Q; contradiction|]. rewrite B. reflexivity.
-Qed.
-
-(* (b) equal shapes: every element is f(self[j], inputs[1][j]) -- the first input is ignored *)
-Theorem arctan2_same_shape : forall h f x y self me s c0 c1,
-  wf_heap h -> dispatcher h x y = Some self -> nth_error h self = Some me ->
-  input E h x y = Some (s, c0) -> input E h y x = Some (s, c1) ->
-  match snd (step_bin h BAtan2 f x y) with
-  | XArr k s' cells => k = KU /\ s' = s /\ length cells = size s /\
-      forall j, j < size s -> bin f (nth j (a_cells E me) none) (nth j c1 none) = Ok (nth j cells none)
-  | XExn e => exists j, j < size s /\ bin f (nth j (a_cells E me) none) (nth j c1 none) = Err e
-  | XLbl _ => False
-  end.
-Proof.
-  intros h f x y self me s c0 c1 W D N I0 I1.
-  pose proof (input_wf _ _ _ _ _ W I1) as L1. pose proof (wf_nth _ _ _ W N) as Lm. unfold wf_arr in Lm.
-  assert (Hs : a_shape E me = s) by (destruct (self_input _ _ _ _ _ _ _ _ _ D N I0 I1) as [[A _]|[A _]]; congruence).
-  unfold Array.step_bin. fold (dispatcher h x y). rewrite D, I0, I1, N, shape_eqb_refl, Hs, snd_finish.
-  rewrite Hs in Lm.
-  pose proof (fill_combine_flat f (a_cells E me) c1 (size s) Lm L1) as P.
-  destruct (Array.fill E none (size s) (combine (a_cells E me) c1) (fun p => bin f (fst p) (snd p))) as [cells|e].
-  - destruct P as [Lc P]. repeat split; auto.
-  - exact P.
-Qed.
-
 (* ------------------------------------------------------------------ unary operations, views, copy, result *)
 Theorem un_clean : forall h k f i lbl a l,
   wf_heap h -> get_ku E h i = Some a -> a_bs E a = BNone -> lbl a = Ok l ->
@@ -644,23 +584,6 @@ Proof.
   destruct (Array.fill E none (size (a_shape E a)) (a_cells E a) (un f)) as [cells|e].
   - rewrite Hl. simpl. destruct P as [Lc P]. repeat split; auto. intros idx V. apply P. apply flat_lt. exact V.
   - simpl. destruct P as (j & Hj & Hf). destruct (unflat_exists _ j Hj) as (idx & V & Fj). exists idx. rewrite Fj. auto.
-Qed.
-
-(* the defect, in general: with a remembered broadcast shape r the result has shape r (not the
-   operand's), its first n cells are the scalar results in flat order, the others are None *)
-Theorem un_stale : forall h k f i lbl a l r,
-  get_ku E h i = Some a -> a_bs E a = BSome r -> lbl a = Ok l ->
-  length (a_cells E a) <= size r ->
-  (forall j, j < length (a_cells E a) -> exists v, un f (nth j (a_cells E a) none) = Ok v) ->
-  exists cells, snd (step_un h k f i lbl) = XArr k r cells /\ length cells = size r /\
-    (forall j, j < length (a_cells E a) -> un f (nth j (a_cells E a) none) = Ok (nth j cells none)) /\
-    (forall j, length (a_cells E a) <= j -> nth j cells none = none).
-Proof.
-  intros h k f i lbl a l r G Hb Hl Hn Hok. unfold Array.step_un. rewrite G. unfold ce_shape. rewrite Hb.
-  destruct (Array.fill E none (size r) (a_cells E a) (un f)) as [cells|e] eqn:F.
-  - rewrite Hl. simpl. exists cells. destruct (fill_ok _ _ _ _ _ F) as (_ & Lc & P & Q). repeat split; auto.
-  - exfalso. destruct (fill_err _ _ _ _ _ F) as [(j & dx & Hj & Hf)|[_ Hm]]; [|lia].
-    destruct (Hok j Hj) as [v Hv]. rewrite (nth_indep _ dx none) in Hf by exact Hj. congruence.
 Qed.
 
 (* sensitivity / u_component / core.atan2 of two arrays of the same shape, no remembered shape *)
@@ -688,101 +611,9 @@ Proof.
   - exact P.
 Qed.
 
-(* ------------------------------------------------------------------ history independence of binary ufuncs *)
-Definition content_eq (a b : arr) : Prop :=
-  a_kind E a = a_kind E b /\ a_shape E a = a_shape E b /\ a_cells E a = a_cells E b /\
-  a_label E a = a_label E b /\ a_pickled E a = a_pickled E b.
-Definition heap_ceq (h1 h2 : heap) : Prop := Forall2 content_eq h1 h2.
-
-Lemma ceq_nth : forall h1 h2 i, heap_ceq h1 h2 ->
-  match nth_error h1 i, nth_error h2 i with
-  | Some a, Some b => content_eq a b
-  | None, None => True
-  | _, _ => False
-  end.
-Proof.
-  intros h1 h2 i H. revert i. induction H as [|a b h1 h2 C H IH]; intros [|i]; simpl; auto. apply IH.
-Qed.
-
-Lemma is_ku_ceq : forall h1 h2 x, heap_ceq h1 h2 -> is_ku E h1 x = is_ku E h2 x.
-Proof.
-  intros h1 h2 [i|e] H; simpl; [|reflexivity]. pose proof (ceq_nth _ _ i H) as C.
-  destruct (nth_error h1 i) as [a|], (nth_error h2 i) as [b|]; try contradiction; [|reflexivity].
-  destruct C as (K & _). rewrite K. reflexivity.
-Qed.
-
-Lemma input_ceq : forall h1 h2 x y, heap_ceq h1 h2 -> input E h1 x y = input E h2 x y.
-Proof.
-  intros h1 h2 x y H. destruct x as [i|e]; simpl.
-  - pose proof (ceq_nth _ _ i H) as C.
-    destruct (nth_error h1 i) as [a|], (nth_error h2 i) as [b|]; try contradiction; [|reflexivity].
-    destruct C as (_ & S & Cc & _). rewrite S, Cc. reflexivity.
-  - destruct y as [j|e']; [|reflexivity]. pose proof (ceq_nth _ _ j H) as C.
-    destruct (nth_error h1 j) as [a|], (nth_error h2 j) as [b|]; try contradiction; [|reflexivity].
-    destruct C as (_ & S & _). rewrite S. reflexivity.
-Qed.
-
-Lemma upd_ceq : forall h1 h2 i b1 b2, heap_ceq h1 h2 ->
-  heap_ceq (upd E h1 i (fun a => set_bs E a b1)) (upd E h2 i (fun a => set_bs E a b2)).
-Proof.
-  intros h1 h2 i b1 b2 H. revert i. induction H as [|a b h1 h2 C H IH]; intros [|i]; simpl;
-    constructor; try assumption; try apply IH; unfold content_eq in *; simpl; assumption.
-Qed.
-
-Lemma finish_ceq : forall h1 h2 k s r l, heap_ceq h1 h2 ->
-  heap_ceq (fst (finish E h1 k s r l)) (fst (finish E h2 k s r l)) /\
-  snd (finish E h1 k s r l) = snd (finish E h2 k s r l).
-Proof.
-  intros h1 h2 k s r l H. unfold finish. destruct r as [cells|e]; simpl; split; auto.
-  apply Forall2_app; [exact H|]. constructor; [|constructor]. unfold content_eq. simpl. auto.
-Qed.
-
-(* Every binary ufunc (arithmetic, comparison, np.arctan2 included) gives the same result -- array
-   or exception -- on two heaps whose objects have the same contents, shapes, kinds and labels,
-   whatever _broadcasted_shape each object holds; and the heaps stay content-equal. *)
-Theorem bin_history_independent : forall h1 h2 bk f x y, heap_ceq h1 h2 ->
-  snd (step_bin h1 bk f x y) = snd (step_bin h2 bk f x y) /\
-  heap_ceq (fst (step_bin h1 bk f x y)) (fst (step_bin h2 bk f x y)).
-Proof.
-  intros h1 h2 bk f x y H. unfold Array.step_bin.
-  rewrite (is_ku_ceq _ _ x H), (is_ku_ceq _ _ y H), (input_ceq _ _ x y H), (input_ceq _ _ y x H).
-  destruct (match is_ku E h2 x with Some i => Some i | None => is_ku E h2 y end) as [self|]; [|auto].
-  destruct (input E h2 x y) as [[s0 c0]|]; [|auto]. destruct (input E h2 y x) as [[s1 c1]|]; [|auto].
-  pose proof (ceq_nth _ _ self H) as C.
-  destruct (nth_error h1 self) as [m1|], (nth_error h2 self) as [m2|]; try contradiction; [|auto].
-  destruct C as (_ & S & Cc & _). rewrite S, Cc.
-  destruct (shape_eqb s0 s1).
-  - destruct (finish_ceq _ _ (bin_result_kind bk) (a_shape E m2)
-       (Array.fill E none (size (a_shape E m2))
-          match bk with BAtan2 => combine (a_cells E m2) c1 | _ => combine c0 c1 end
-          (fun p => bin f (fst p) (snd p))) none (upd_ceq _ _ self BNone BNone H)) as [A B]. auto.
-  - destruct (bshape s0 s1) as [r|]; [|split; [reflexivity|apply upd_ceq; exact H]].
-    destruct bk; try (destruct (finish_ceq _ _ (bin_result_kind BGen) r
-       (Array.fill E none (size r) (combine (bcast_list s0 r c0) (bcast_list s1 r c1)) (fun p => bin f (fst p) (snd p)))
-       none (upd_ceq _ _ self (BSome r) (BSome r) H)) as [A B]; auto; fail).
-    + destruct (finish_ceq _ _ (bin_result_kind BCmp) r
-       (Array.fill E none (size r) (combine (bcast_list s0 r c0) (bcast_list s1 r c1)) (fun p => bin f (fst p) (snd p)))
-       none (upd_ceq _ _ self (BSome r) (BSome r) H)) as [A B]. auto.
-    + split; [reflexivity|apply upd_ceq; exact H].
-Qed.
-
-
-(* ------------------------------------------------------------------ histories without a broadcasting binary op *)
+(* ------------------------------------------------------------------ no object ever remembers a shape *)
 Definition clean_arr (a : arr) : Prop := a_bs E a = BNone.
 Definition all_clean (h : heap) : Prop := Forall clean_arr h.
-
-Definition op_no_bcast (h : heap) (o : op E) : Prop :=
-  match o with
-  | OBin _ _ x y => forall s0 c0 s1 c1, input E h x y = Some (s0, c0) -> input E h y x = Some (s1, c1) -> s0 = s1
-  | OPickle _ => False
-  | _ => True
-  end.
-
-Fixpoint hist_no_bcast (h : heap) (p : list (op E)) : Prop :=
-  match p with
-  | [] => True
-  | o :: t => op_no_bcast h o /\ hist_no_bcast (fst (step h o)) t
-  end.
 
 Lemma clean_upd : forall h i, all_clean h -> all_clean (upd E h i (fun a => set_bs E a BNone)).
 Proof.
@@ -792,17 +623,19 @@ Proof.
   - constructor; [exact Ha|apply IH; exact Hh].
 Qed.
 
+Lemma clean_snoc_fresh : forall h k s cells l, all_clean h -> all_clean (h ++ [fresh E k s cells l]).
+Proof. intros. apply Forall_app. split; [assumption|]. constructor; [reflexivity|constructor]. Qed.
+
 Lemma clean_finish : forall h k s r l, all_clean h -> all_clean (fst (finish E h k s r l)).
 Proof.
-  intros h k s r l H. unfold finish. destruct r; simpl; [|exact H].
-  apply Forall_app. split; [exact H|]. constructor; [reflexivity|constructor].
+  intros h k s r l H. unfold finish. destruct r; simpl; [|exact H]. apply clean_snoc_fresh. exact H.
 Qed.
 
 Lemma clean_step_un : forall h k f i lbl, all_clean h -> all_clean (fst (step_un h k f i lbl)).
 Proof.
   intros h k f i lbl H. unfold Array.step_un. destruct (get_ku E h i) as [a|]; [|exact H].
-  destruct (ce_shape E a); [|exact H]. destruct (Array.fill E none (size a0) (a_cells E a) (un f)); [|exact H].
-  destruct (lbl a); [|exact H]. simpl. apply Forall_app. split; [exact H|]. constructor; [reflexivity|constructor].
+  destruct (ce_shape E a) as [s|]; [|exact H]. destruct (Array.fill E none (size s) (a_cells E a) (un f)); [|exact H].
+  destruct (lbl a); [|exact H]. simpl. apply clean_snoc_fresh. exact H.
 Qed.
 
 Lemma clean_step_zip : forall h f i ys, all_clean h -> all_clean (fst (step_zip h f i ys)).
@@ -811,16 +644,18 @@ Proof.
   destruct ys; [|exact H]. destruct (ce_shape E a); [|exact H]. apply clean_finish. exact H.
 Qed.
 
-Theorem clean_step : forall h o, all_clean h -> op_no_bcast h o -> all_clean (fst (step h o)).
+(* every operation -- broadcasting binary ufuncs, failing ones, unpickling included -- leaves every
+   object with _broadcasted_shape = None *)
+Theorem clean_step : forall h o, all_clean h -> all_clean (fst (step h o)).
 Proof.
-  intros h o H N. destruct o as [k s cells lbl|bk f x y|f i|f i|f i y|i l|i|i|i]; simpl in *.
-  - destruct (size s =? length cells); [|exact H]. simpl. apply Forall_app. split; [exact H|].
-    constructor; [reflexivity|constructor].
+  intros h o H. destruct o as [k s cells lbl|bk f x y|f i|f i|f i y|i l|i|i|i]; simpl in *.
+  - destruct (size s =? length cells); [|exact H]. simpl. apply clean_snoc_fresh. exact H.
   - unfold Array.step_bin.
     destruct (match is_ku E h x with Some i => Some i | None => is_ku E h y end) as [self|]; [|exact H].
     destruct (input E h x y) as [[s0 c0]|]; [|exact H]. destruct (input E h y x) as [[s1 c1]|]; [|exact H].
     destruct (nth_error h self) as [me|]; [|exact H].
-    rewrite (N s0 c0 s1 c1 eq_refl eq_refl), shape_eqb_refl. apply clean_finish. apply clean_upd. exact H.
+    destruct (shape_eqb s0 s1); [apply clean_finish; apply clean_upd; exact H|].
+    destruct (bshape s0 s1); [apply clean_finish|]; apply clean_upd; exact H.
   - apply clean_step_un. exact H.
   - apply clean_step_un. exact H.
   - apply clean_step_zip. exact H.
@@ -828,17 +663,52 @@ Proof.
     destruct (get_ku E h i); [apply clean_step_zip|]; exact H.
   - apply clean_step_un. exact H.
   - destruct (get_ku E h i); exact H.
-  - contradiction.
+  - destruct (get_ku E h i); [|exact H]. simpl. apply clean_snoc_fresh. exact H.
 Qed.
 
-(* after any history in which no binary ufunc had operands of different shapes (and nothing was
-   unpickled) no object remembers a broadcast shape *)
-Theorem clean_run : forall p h, all_clean h -> hist_no_bcast h p -> all_clean (fst (run h p)).
+Theorem clean_run : forall p h, all_clean h -> all_clean (fst (run h p)).
 Proof.
-  induction p as [|o p IH]; intros h H N; simpl; [exact H|]. destruct N as [No Np].
-  pose proof (clean_step h o H No) as C.
-  destruct (step h o) as [h1 x] eqn:S. simpl in *. specialize (IH h1 C Np).
+  induction p as [|o p IH]; intros h H; simpl; [exact H|].
+  pose proof (clean_step h o H) as C.
+  destruct (step h o) as [h1 x] eqn:S. simpl in *. specialize (IH h1 C).
   destruct (run h1 p) as [h2 xs]. simpl in *. exact IH.
 Qed.
+
+(* ------------------------------------------------------------------ history independence *)
+Definition content_eq (a b : arr) : Prop :=
+  a_kind E a = a_kind E b /\ a_shape E a = a_shape E b /\ a_cells E a = a_cells E b /\
+  a_label E a = a_label E b.
+Definition heap_ceq (h1 h2 : heap) : Prop := Forall2 content_eq h1 h2.
+
+(* two heaps whose objects have the same kinds, shapes, contents and labels, and in which no object
+   remembers a shape, are the same heap: nothing else is left for an operation to depend on *)
+Lemma ceq_clean_eq : forall h1 h2, heap_ceq h1 h2 -> all_clean h1 -> all_clean h2 -> h1 = h2.
+Proof.
+  intros h1 h2 H. induction H as [|a b h1 h2 C H IH]; intros C1 C2; [reflexivity|].
+  inversion C1 as [|? ? Ha C1']; inversion C2 as [|? ? Hb C2']; subst.
+  f_equal; [|apply IH; assumption].
+  destruct a as [ka sa ca ba la], b as [kb sb cb bb lb]. unfold content_eq, clean_arr in *. simpl in *.
+  destruct C as (K & S & Cc & L). subst. reflexivity.
+Qed.
+
+(* a pickle round trip yields an object that every unary operation / view treats like the original *)
+Theorem pickle_roundtrip : forall h i a f k,
+  all_clean h -> get_ku E h i = Some a ->
+  fst (step h (OPickle i)) = h ++ [fresh E KU (a_shape E a) (a_cells E a) none] /\
+  snd (step_un (fst (step h (OPickle i))) k f (length h) (fun _ => Ok none)) = snd (step_un h k f i (fun _ => Ok none)).
+Proof.
+  intros h i a f k C G. simpl. rewrite G. simpl. split; [reflexivity|].
+  assert (Hb : a_bs E a = BNone).
+  { destruct (get_ku_nth _ _ _ G) as [N _]. eapply Forall_forall in C; [exact C|]. eapply nth_error_In. exact N. }
+  unfold Array.step_un.
+  assert (G' : get_ku E (h ++ [fresh E KU (a_shape E a) (a_cells E a) none]) (length h)
+               = Some (fresh E KU (a_shape E a) (a_cells E a) none)).
+  { unfold get_ku. rewrite nth_error_app2 by lia. rewrite Nat.sub_diag. reflexivity. }
+  rewrite G', G. unfold ce_shape. rewrite Hb. simpl.
+  destruct (Array.fill E none (size (a_shape E a)) (a_cells E a) (un f)); reflexivity.
+Qed.
+
+Lemma heap_ceq_refl : forall h, heap_ceq h h.
+Proof. induction h; constructor; auto. unfold content_eq. auto. Qed.
 
 End Facts.
